@@ -23,15 +23,16 @@ ASSUMPTIONS = ["operation arguments from the stated alphabet (two/three titles, 
                "one mask, one permutation, one row list)", "PandasColumnfile is out of scope (pandas not installed)"]
 SERIAL = False
 
-INITS = ("addcolumn", "textfile", "dict", "hdf")
+INITS = ("addcolumn", "textfile", "dict", "hdf", "dict_mixed")
+B0_MIXED = [10.5, 20.25, 30.125]          # "dict_mixed": column a is int32, column b float64 with fractional values
 A0 = [3.0, 1.0, 2.0]
 B0 = [10.0, 20.0, 30.0]
 
 
 # ------------------------------------------------------------------------------------------ model + ops
 class Model:
-    def __init__(self):
-        self.cols = {"a": list(A0), "b": list(B0)}
+    def __init__(self, kind="dict"):
+        self.cols = {"a": list(A0), "b": list(B0_MIXED if kind == "dict_mixed" else B0)}
 
     @property
     def nrows(self):
@@ -185,6 +186,14 @@ def op_table():
             raise AssertionError("written values differ")
     add("writefile", lambda m: m.nrows >= 1, f_write)
 
+    def f_filter_none(cf, m, w):
+        cf.filter(np.ones(m.nrows, bool))
+    add("filter_that_removes_nothing", lambda m: m.nrows >= 1, f_filter_none)
+
+    def f_remove_absent(cf, m, w):
+        cf.removerows("b", [987654])
+    add("removerows_value_not_present", lambda m: m.nrows >= 1 and "b" in m.cols, f_remove_absent)
+
     def f_filter_all(cf, m, w):
         cf.filter(np.zeros(m.nrows, bool)); m.select([])
     add("filter_everything_out", lambda m: m.nrows >= 1, f_filter_all)
@@ -231,6 +240,8 @@ def make_initial(kind, work):
         return C.columnfile(p)
     if kind == "dict":
         return C.colfile_from_dict({"a": np.array(A0), "b": np.array(B0)})
+    if kind == "dict_mixed":
+        return C.colfile_from_dict({"a": np.array(A0, np.int32), "b": np.array(B0_MIXED, np.float64)})
     if kind == "hdf":
         p = os.path.join(work, "init.h5")
         if not os.path.exists(p):
@@ -332,7 +343,7 @@ class Broken(Exception):
 def replay_history(init, hist, work, check_last_only=True):
     """Rebuild a fresh object, apply hist (list of op indices); returns (cf, model). Raises Broken."""
     cf = make_initial(init, work)
-    m = Model()
+    m = Model(init)
     for step, oi in enumerate(hist):
         name, pre, fn = OPS[oi]
         if not pre(m):
